@@ -234,8 +234,41 @@ func genC12Long(tier string, r *Rng, emit func(Case)) {
 	}
 }
 
+// genPrintLazy: prints (no fault) of a few early positions of a LONG bounded view of an endless counted Number:
+// nothing beyond the highest shown position (+ read-ahead) is consulted, however long the view is.
+func genPrintLazy(tier string, r *Rng, emit func(Case)) {
+	n := 9
+	if tier == "thorough" {
+		n = 90
+	}
+	for i := 0; i < n; i++ {
+		ver := allVers[i%3]
+		var t toks
+		t.s("G")
+		t.ints(nil)
+		t.ints(randDigits(r, r.Range(1, 6)))
+		t.i(1)
+		t.i(r.Pick([]int{-1, 0, 5, 100}))
+		t.i(r.Pick([]int{20000, 50000, 300000}))
+		t.i(1)
+		a := r.Pick([]int{0, 3, 120})
+		t.i(a)
+		t.i(a + r.Range(1, 40))
+		t.i(r.Pick([]int{0, 10, 50}))
+		t.i(5)
+		t.bool(r.Bool())
+		t.i('.')
+		t.bool(true)
+		t.bool(false)
+		t.i(0)
+		args := append(append(toks{}, t...), itoa(r.Pick([]int{0, 16})), "0", "1000000")
+		emit(Case{Ver: ver, Op: "Fprint", Args: args})
+	}
+}
+
 func init() {
 	register("C12", func(tier string, r *Rng, emit func(Case)) {
+		genPrintLazy(tier, r, emit)
 		genC12Long(tier, r, emit)
 		genC12Far(tier, r, emit)
 		genC12(tier, r, emit)
